@@ -284,13 +284,48 @@ impl<'tcx, 'a> Cx<'tcx, 'a> {
                 j.s("item", &path_of(self.tcx, uv.def));
                 if let Some(p) = uv.promoted {
                     j.n("promoted", p.as_u32() as i128);
+                    None
+                } else if uv.args.is_empty() {
+                    // named constant without generics (e.g. CACHE_FILE_NAME): its evaluated value
+                    match std::panic::catch_unwind(std::panic::AssertUnwindSafe(|| {
+                        self.tcx.const_eval_poly(uv.def)
+                    })) {
+                        Ok(Ok(v)) => Some(v),
+                        _ => None,
+                    }
+                } else {
+                    None
                 }
-                None
             }
             Const::Ty(_, _) => None,
         };
         if let Some(v) = val {
             match v {
+                ConstValue::Scalar(rustc_middle::mir::interpret::Scalar::Ptr(ptr, _)) => {
+                    // reference to a byte array (`&[u8; N]`, e.g. format_args! templates): read it
+                    if let ty::Ref(_, inner, _) = ty.kind() {
+                        if let ty::Array(elem, _) = inner.kind() {
+                            if matches!(elem.kind(), ty::Uint(ty::UintTy::U8)) {
+                                let (prov, off) = ptr.into_raw_parts();
+                                if let Some(rustc_middle::mir::interpret::GlobalAlloc::Memory(a)) =
+                                    self.tcx.try_get_global_alloc(prov.alloc_id())
+                                {
+                                    let a = a.inner();
+                                    let start = off.bytes() as usize;
+                                    let end = a.size().bytes() as usize;
+                                    if start <= end {
+                                        let bytes = a.inspect_with_uninit_and_ptr_outside_interpreter(start..end);
+                                        let mut hex = String::new();
+                                        for b in bytes.iter().take(8192) {
+                                            let _ = write!(hex, "{:02x}", b);
+                                        }
+                                        j.s("bytes", &hex);
+                                    }
+                                }
+                            }
+                        }
+                    }
+                }
                 ConstValue::Scalar(_) => {
                     if let Some(si) = v.try_to_scalar_int() {
                         let size = si.size();
